@@ -9,6 +9,8 @@
 package logic
 
 import (
+	"time"
+
 	"github.com/q191201771/lal/pkg/hls"
 	"github.com/q191201771/lal/pkg/httpflv"
 	"github.com/q191201771/lal/pkg/httpts"
@@ -162,5 +164,8 @@ func (group *Group) delHlsSubSession(session *hls.SubSession) {
 // ---------------------------------------------------------------------------------------------------------------------
 
 func (group *Group) addSub() {
+	// a consumer is present now: the auto-stop window of the relay pull starts over, even if this consumer
+	// leaves again before a tick has seen it
+	group.pullProxy.lastHasOutTs = time.Now().UnixNano() / 1e6
 	group.pullIfNeeded()
 }
